@@ -213,6 +213,15 @@ def termination_scenarios():
     out.append(("forrange-over-a-field-that-grows", body1, [h3(), inj_func("Mark")], {"class": "ok", "Mark": 4, "PushSL": 3}))
     body2 = block([sforrange("k", "h.SL", block([sforrange("j", "h.SL", block([scall(call("method", "h.PushSL", [("const", kint(1))]))]))])), scall(call("func", "Mark", [("const", kint(99))]))])
     out.append(("nested-forrange-over-a-field-that-grows", body2, [h3(), inj_func("Mark")], {"class": "ok", "Mark": 1, "PushSL": None}))
+    # the children of a conc block READ fields of a rule-local object (p.N, p.Id: the object sits in the rule's local store) while
+    # their siblings bind new locals, 200 blocks in a row: the call returns normally (a racing local store would abort the process)
+    kids = []
+    for n in range(12):
+        kids.append(("asg", assign(("var", "b%d" % n), "=", ("math", mk_mbin("+", mvar("p.N" if n % 2 else "p.Id"), mint(n))))))
+    loop = sfor(assign(("var", "i"), "=", ("math", mint(0))), mk_ecmp("<", emath(mvar("i")), emath(mint(200))), assign(("var", "i"), "+=", ("math", mint(1))), block([sconc(kids)]))
+    out.append(("conc-children-reading-fields-of-a-local-object", block([assign(("var", "p"), "=", ("math", matom(acall(call("func", "NewC", []))))), loop,
+                                                                         scall(call("func", "Mark", [("const", kint(99))]))]), [inj_func("NewC"), inj_func("Mark")],
+                {"class": "ok", "NewC": 1, "Mark": 1}))
     # a call whose receiver does not exist fails — and leaves nothing behind that disturbs the NEXT rule of the same call, which
     # makes an ordinary method call for the first time in the process
     hh = lambda: inj_struct("h")
